@@ -200,6 +200,27 @@ func (g *cgGen) ident() string {
 	return s
 }
 
+// cgUniWords: identifiers with letters outside ASCII whose first letter has a one-letter title case
+// (no ß, no ligatures in front: their title case is two letters and the struct would not be named after the object
+// up to letter case).
+var cgUniWords = []string{"größe", "Maßeinheit", "señal", "año", "имя", "данные", "Ärger", "ünit", "naïve", "日付", "名前",
+	"été", "Ωmega", "λ", "ключ", "straße", "coût", "zażółć", "Ελλάδα", "x_é", "_ö1", "поле2"}
+
+// identU returns a valid identifier that contains at least one letter outside ASCII.
+func (g *cgGen) identU() string {
+	w := g.pick(cgUniWords)
+	switch g.r.Intn(5) {
+	case 0:
+		w = g.pick(cgWords) + "_" + w
+	case 1:
+		w = w + strconv.Itoa(g.r.Intn(100))
+	case 2:
+		w = w + "_" + g.pick(cgUniWords)
+	}
+	g.stats["name:unicode"]++
+	return w
+}
+
 // badName returns a name that is not an identifier (malformed stream).
 func (g *cgGen) badName() string {
 	w1, w2 := g.pick(cgWords), g.pick(cgWords)
@@ -219,6 +240,10 @@ func (g *cgGen) distinct(used map[string]bool, mk func() string) string {
 func (g *cgGen) doc(thorough bool) *cgDoc {
 	d := &cgDoc{}
 	switch p := g.r.Intn(100); {
+	case p < 8:
+		// valid identifiers with letters outside ASCII (a Go identifier is letters and digits in the Unicode
+		// sense); oracle-only: the model's identifiers are ASCII
+		d.Stream = "unicode"
 	case p < 78:
 		d.Stream = "valid"
 	case p < 88:
@@ -247,8 +272,15 @@ func (g *cgGen) doc(thorough bool) *cgDoc {
 		nObj = 1
 	}
 	used := map[string]bool{}
+	mkName := g.ident
+	if d.Stream == "unicode" {
+		mkName = g.identU
+		if nObj == 0 {
+			nObj = 1
+		}
+	}
 	for i := 0; i < nObj; i++ {
-		name := g.distinct(used, g.ident)
+		name := g.distinct(used, mkName)
 		// now and then a second object whose name differs only in the case of the first letter
 		if i > 0 && g.r.Intn(25) == 0 {
 			prev := d.Objs[g.r.Intn(i)].Name
@@ -273,7 +305,7 @@ func (g *cgGen) doc(thorough bool) *cgDoc {
 		}
 		usedP := map[string]bool{}
 		for j := 0; j < nProp; j++ {
-			pr := cgProp{Name: g.distinct(usedP, g.ident)}
+			pr := cgProp{Name: g.distinct(usedP, mkName)}
 			pr.TypeID = g.pick(cgTypeIDs)
 			if g.r.Intn(8) == 0 {
 				pr.TypeID = "ref"
@@ -989,15 +1021,17 @@ func codegenCmd(a Args) {
 				res.V = &cgV{Decls: decls, Raw: cgRaw(grp.args, decls)}
 			}
 		}
-		cb, err := json.Marshal(c)
-		if err != nil {
-			panic(err)
+		if c.Stream != "unicode" { // oracle-only: not a model case
+			cb, err := json.Marshal(c)
+			if err != nil {
+				panic(err)
+			}
+			wc.Write(cb)
+			wc.WriteByte('\n')
+			rb, _ := json.Marshal(res)
+			wg.Write(rb)
+			wg.WriteByte('\n')
 		}
-		wc.Write(cb)
-		wc.WriteByte('\n')
-		rb, _ := json.Marshal(res)
-		wg.Write(rb)
-		wg.WriteByte('\n')
 		stats["case:"+c.Stream+":"+res.R]++
 
 		if judged[c.runKey] {
@@ -1008,7 +1042,7 @@ func codegenCmd(a Args) {
 		mk := func(what string, detail ...string) cgFinding {
 			return cgFinding{What: what, Cases: []int{c.ID}, Stream: c.Stream, Args: grp.args, YAML: grp.yaml, Detail: detail}
 		}
-		inScope := c.Stream == "valid" || c.Stream == "missingref"
+		inScope := c.Stream == "valid" || c.Stream == "missingref" || c.Stream == "unicode"
 		// repeated runs: identical observable behaviour (all streams: same input, same output)
 		for i, r := range grp.runs[1:] {
 			if r.exit != first.exit || !bytes.Equal(r.out, first.out) {
